@@ -39,7 +39,7 @@ func vfC07(env *vfc.Env) {
 		}
 		r := rnd.Split(uint64(h))
 		cfg := vfC05Config(r)
-		stage := r.Intn(4)
+		stage := r.Intn(5)
 		if stage >= 2 { // an earlier file is a destination only while it is smaller than the file limit minus body_max
 			cfg.DataFileMax, cfg.BodyMax = int64(r.Pick(12, 16, 24))*256, int64(r.Pick(300, 512))
 		}
@@ -54,6 +54,47 @@ func vfC07(env *vfc.Env) {
 			o.NOps = r.Range(150, 250) // enough records for a handful of files above the compacted low end
 		}
 		ops := model.GenHistory(r, keys, o)
+		if stage == 4 {
+			// directed layout: keys that are set once in the first files and deleted later, the
+			// delete records spread over the following files (many of them the last record of
+			// their file); after a restart with a rebuilt tree those keys have no tree entry, so
+			// a pass that starts above the first file keeps their delete records as a precaution:
+			// records that the pass moves without any tree entry to repoint
+			ops = nil
+			pool := map[string]bool{}
+			var all []string
+			for len(all) < 30 {
+				for _, k := range vfTagSafeKeys(r, 8, cfg) {
+					if !pool[k] && len(k) < 60 {
+						pool[k] = true
+						all = append(all, k)
+					}
+				}
+			}
+			nd := r.Range(6, 14)
+			doomed, hot := all[:nd], all[nd:nd+r.Range(3, 6)]
+			keys = append(append([]string{}, doomed...), hot...)
+			set := func(k string, lo, hi int) {
+				ops = append(ops, model.Op{K: "set", Key: k, Val: &ref.ValueSpec{Class: "random", Size: r.Range(lo, hi), Seed: r.Uint64()}, Flag: uint32(r.Intn(1000))})
+			}
+			for _, k := range doomed {
+				set(k, 20, 200)
+			}
+			for i := r.Range(2, 8); i > 0; i-- {
+				set(hot[r.Intn(len(hot))], 150, maxVal)
+			}
+			for _, k := range doomed {
+				for i := r.Range(0, 3); i > 0; i-- {
+					set(hot[r.Intn(len(hot))], 150, maxVal)
+				}
+				if r.Intn(6) > 0 {
+					ops = append(ops, model.Op{K: "del", Key: k})
+				}
+			}
+			for i := r.Range(1, 4); i > 0; i-- {
+				set(hot[r.Intn(len(hot))], 150, maxVal)
+			}
+		}
 		if stage == 3 {
 			// directed layout: cold keys and first versions of the hot keys in the first file(s),
 			// then one round that rewrites every hot key (those records are all live and fill
@@ -136,7 +177,11 @@ func vfC07(env *vfc.Env) {
 			}
 			ops = append(pre, ops...)
 		}
-		ops = append(ops, model.Op{K: "flush"}, model.Op{K: "restart", Rm: []string{"", "all", "hash"}[r.Intn(3)]})
+		if stage == 4 {
+			ops = append(ops, model.Op{K: "flush"}, model.Op{K: "restart", Rm: []string{"all", "hash"}[r.Intn(2)]})
+		} else {
+			ops = append(ops, model.Op{K: "flush"}, model.Op{K: "restart", Rm: []string{"", "all", "hash"}[r.Intn(3)]})
+		}
 		c := &vfHistCase{Cfg: cfg, Keys: keys, Ops: ops}
 		res.Begin(id, c)
 		base := filepath.Join(env.Work, id)
@@ -160,6 +205,8 @@ func vfC07(env *vfc.Env) {
 		case 1:
 			run.Step(model.Op{K: "gc", Sel: r.Uint64() % 1000, Merge: r.Bool()})
 			run.Step(model.Op{K: "flush"})
+		case 4:
+			// no earlier pass
 		case 2, 3:
 			sel := r.Uint64() % 1000
 			if stage == 3 {
@@ -177,7 +224,10 @@ func vfC07(env *vfc.Env) {
 			sut.Destroy()
 			continue
 		}
-		if stage >= 2 {
+		if stage == 4 {
+			res.Event("layout_stage4_cases", 1)
+		}
+		if stage >= 2 && stage != 4 {
 			res.Event(fmt.Sprintf("layout_stage%d_cases", stage), 1)
 			if os.Getenv("VERIF_TRACE_C07") != "" {
 				fmt.Fprintf(os.Stderr, "TRACE %s stage2 max=%d bodymax=%d chunks: %s ranges %v\n", id, cfg.DataFileMax, cfg.BodyMax, store.VFDescribeChunks(sut.hs, 0), ranges)
@@ -203,6 +253,17 @@ func vfC07(env *vfc.Env) {
 			}
 		}
 		rg := ranges[r.Intn(len(ranges))]
+		if stage == 4 { // a pass that does not start at the first file
+			var high [][4]int
+			for _, x := range ranges {
+				if x[0] > 0 {
+					high = append(high, x)
+				}
+			}
+			if len(high) > 0 {
+				rg = high[r.Intn(len(high))]
+			}
+		}
 		if stage == 3 { // the file right above the small one, and a random end
 			for _, x := range ranges {
 				if x[0] < rg[0] {
